@@ -28,7 +28,7 @@ func init() {
 		Explanation: "Decides writer/reader agreement of the typed configuration layer, not git's syntax: (config-section-coverage) the section names Config.marshal* functions write are the section names Config.unmarshal* functions read; " +
 			"(config-key-coverage) per section-level type (Config core/user/…, RemoteConfig, Branch, Submodule, URL) every key constant written by the marshal side is read by the unmarshal side of the same package. " +
 			"(config-escape-tables) the low-level encoder formats with %s only (no Go-quoting verb), subsection names reach the output only through a replacer whose table is exactly {\" -> \\\", \\ -> \\\\}, and option values are written raw only on the " +
-			"false edge of the needs-quoting test (# ; \" \\ LF at least) and otherwise through a table of git-config value escapes. Not decided: the parser's (gcfg) agreement with git, boolean/number interpretation.",
+			"false edge of the needs-quoting test (# ; \" \\ LF at least) and otherwise through a table of git-config value escapes. (cached-subsection-follows-section) the decoder's callback keeps no value between options that was computed from another kept value and can outlive its replacement (a subsection remembered across a change of section). Not decided: the parser's (gcfg) agreement with git, boolean/number interpretation.",
 		Assumptions: []string{},
 		Run:         runC48,
 	})
@@ -47,7 +47,7 @@ func init() {
 			"offset writer and zlib writer are built on that tee; footer writes the hasher's Sum; (header-count) the object count written in the header is the length of the slice that is then iterated; " +
 			"(base-before-offset) in entry, a delta's base is written before the delta's own offset is recorded; (request-deduplicated) the selector loads the requested hashes through a list built under a not-yet-seen map test " +
 			"(or a loop that skips seen hashes), so a hash requested twice yields one entry; (metadata-saved-before-clean) every CleanOriginal on an ObjectToPack is preceded on all paths by SaveOriginalMetadata or lies on the edge where the object is a stored " +
-			"plumbing.DeltaObject, so Hash/Type/Size stay defined for REF_DELTA headers. Not decided: delta selection, content equality, acceptance by git index-pack.",
+			"plumbing.DeltaObject, so Hash/Type/Size stay defined for REF_DELTA headers; (delta-base-same-type) every attempt to deltify a target against a base is reachable only where the two have the same type (a delta takes its base's type when the pack is read). Not decided: the rest of delta selection, content equality, acceptance by git index-pack.",
 		Assumptions: []string{},
 		Run:         runC07,
 	})
